@@ -35,7 +35,18 @@ KINDS = ["pawn", "knight", "bishop", "rook", "queen", "king"]
 
 def jobs(tier, seed):
     t = 7200 if tier == "thorough" else 3000
-    js = [Job("c15_init_is_sum", "real IncrementalEvalFields::init == sum of the contributions of all men, any reachable material", timeout=t, mem_gb=24, witness=False)]
+    js = []
+    if tier == "thorough":  # > 30 min (64-square loops over a symbolic mailbox)
+        js.append(Job("c15_init_is_sum", "real IncrementalEvalFields::init == sum of the contributions of all men, any reachable material", timeout=t, mem_gb=24, witness=False))
+    from props.c10 import bpos_literal
+    from props.c03 import PLACEMENTS
+    import re as _re
+    for i, fen in enumerate(PLACEMENTS):
+        pcs = _re.search(r"pcs: (\[\[.*?\]\])", bpos_literal(fen)).group(1)
+        name = f"c15_init_on_placement_{i}"
+        src = f"#[kani::proof]\n#[kani::unwind(66)]\npub fn {name}() {{ c15::init_on_placement({pcs}); }}\n"
+        js.append(Job(name, f"real init() == sum of contributions on the concrete placement '{fen.split()[0]}'", gen=src, timeout=900, mem_gb=12, witness=False,
+                      params={"placement": fen.split()[0]}))
     js.append(Job("c15_delta_null", "null move leaves the accumulators alone; take-back restores", timeout=1200, mem_gb=16, witness=False, checks="functional"))
     for kind in range(6):
         for side in (0, 1):
